@@ -55,6 +55,16 @@ VARIANTS = [
         return self.best_path
 """, 2)],
          expect=("C16-FRESH", "GreedyOptimizer")),
+    dict(name="a waiting thread returns searched=True without searching", kind="break", file=R,
+         old="                raise KeyError(\"Contraction missing from cache.\")\n\n            con = self._run_optimizer(inputs, output, size_dict)\n",
+         new="                raise KeyError(\"Contraction missing from cache.\")\n\n            if h in self._cache and not self.overwrite:\n                return should_run, self._cache[h]\n\n            con = self._run_optimizer(inputs, output, size_dict)\n",
+         expect=("C16-OWNRUN", "_maybe_run_optimizer")),
+    dict(name="search always returns the thread's last tree", kind="break", file=R,
+         old="        if searched:\n            # already have the tree to return\n            return self.last_opt.tree\n",
+         new="        if self.last_opt is not None:\n            return self.last_opt.tree\n", expect=("C16-OWNRUN", "search")),
+    dict(name="twin: early return with an explicit False flag", kind="twin", file=R,
+         old="        should_run = missing or self.overwrite\n        if should_run:",
+         new="        should_run = missing or self.overwrite\n        if (not should_run) and False:\n            return False, self._cache[h]\n        if should_run:"),
     dict(name="twin: rename tid", kind="twin", file=P, count=3, old="tid", new="thread_id"),
     dict(name="twin: thread id taken once into a local in last_opt", kind="twin", file=R,
          old="        return self._suboptimizers.get(threading.get_ident(), None)",
